@@ -134,6 +134,11 @@ class Sym:
     def __deepcopy__(self, memo):
         return self
 
+    # numpy-scalar look-alikes (np.float64 has them; library code calls e.g. `.size` on 0-d results)
+    size = 1
+    ndim = 0
+    shape = ()
+
     def item(self):
         return self
 
